@@ -1,4 +1,92 @@
 package main
 
+import (
+	"go/ast"
+)
+
+// c05Expr renders the few expression forms used by Backends.Clear (exprString of facts.go has no IndexExpr)
+func c05Expr(e ast.Expr) string {
+	switch v := e.(type) {
+	case *ast.IndexExpr:
+		return c05Expr(v.X) + "[" + c05Expr(v.Index) + "]"
+	case *ast.CallExpr:
+		s := c05Expr(v.Fun) + "("
+		for i, a := range v.Args {
+			if i > 0 {
+				s += ","
+			}
+			s += c05Expr(a)
+		}
+		return s + ")"
+	case *ast.BinaryExpr:
+		return c05Expr(v.X) + v.Op.String() + c05Expr(v.Y)
+	case *ast.UnaryExpr:
+		return v.Op.String() + c05Expr(v.X)
+	case *ast.SelectorExpr:
+		return c05Expr(v.X) + "." + v.Sel.Name
+	case *ast.Ident:
+		return v.Name
+	case *ast.BasicLit:
+		return v.Value
+	}
+	return "?"
+}
+
 func factsC05() {
+	// ---- C05
+	bk := "pkg/haproxy/types/backends.go"
+	// Backends.Clear: which shards are inspected and which object is flagged
+	var rng, cond []string
+	var flagged []string
+	ast.Inspect(methodDecl(bk, "Backends", "Clear").Body, func(n ast.Node) bool {
+		switch v := n.(type) {
+		case *ast.RangeStmt:
+			rng = append(rng, c05Expr(v.X))
+		case *ast.IfStmt:
+			cond = append(cond, c05Expr(v.Cond))
+		case *ast.CallExpr:
+			if s := calleeName(v.Fun); len(s) > 0 {
+				if sel, ok := v.Fun.(*ast.SelectorExpr); ok && sel.Sel.Name == "backendShardChanged" {
+					flagged = append(flagged, s)
+				}
+			}
+		}
+		return true
+	})
+	addStrList("c05ClearRange", rng, "Backends.Clear: expression(s) ranged over (the shards inspected)")
+	addStrList("c05ClearCond", cond, "Backends.Clear: condition(s) under which a shard is flagged")
+	addStrList("c05ClearFlagCalls", flagged, "Backends.Clear: backendShardChanged calls (receiver = the object flagged)")
+	addStrList("c05ClearAssigns", methodAssigns(bk, "Backends", "Clear"), "Backends.Clear: selector assignments")
+	// Shrink restores the DELETED object and recomputes changedShards from itemsAdd/itemsDel
+	addStrList("c05ShrinkCalls", methodCalls(bk, "Backends", "Shrink"), "selector calls inside Backends.Shrink, in source order")
+	addStrList("c05CommitAssigns", methodAssigns(bk, "Backends", "Commit"), "Backends.Commit: selector assignments")
+	// update cycle: Shrink before the writes, Commit deferred, backend files = ChangedShards only
+	keep := map[string]bool{"i.config.Commit": true, "i.config.Shrink": true, "i.writeConfig": true,
+		"i.config.WriteFrontendMaps": true, "i.config.WriteBackendMaps": true, "i.config.WriteTCPServicesMaps": true,
+		"i.writeCrtLists": true, "i.config.SyncConfig": true}
+	var upd []string
+	for _, c := range methodCalls("pkg/haproxy/instance.go", "instance", "HAProxyUpdate") {
+		if keep[c] {
+			upd = append(upd, c)
+		}
+	}
+	addStrList("c05UpdateCalls", upd, "instance.HAProxyUpdate: config/writer calls in source order (Commit is deferred)")
+	var wr []string
+	for _, c := range methodCalls("pkg/haproxy/instance.go", "instance", "writeConfig") {
+		switch c {
+		case "i.haproxyTmpl.Write", "i.haproxyTmpl.WriteOutput", ".ChangedShards", ".BuildSortedShard", ".BuildSortedItems":
+			wr = append(wr, c)
+		}
+	}
+	addStrList("c05WriteConfigCalls", wr, "instance.writeConfig: main file then ChangedShards()/BuildSortedShard per shard file")
+	addStrList("c05WriteConfigCmps", binaryCmps("pkg/haproxy/instance.go", "writeConfig"), "instance.writeConfig: comparisons against literals (BackendShards > 0 gate)")
+	// frontend maps guard
+	var fm []string
+	ast.Inspect(methodDecl("pkg/haproxy/config.go", "config", "WriteFrontendMaps").Body, func(n ast.Node) bool {
+		if v, ok := n.(*ast.IfStmt); ok && len(fm) == 0 {
+			fm = append(fm, c05Expr(v.Cond))
+		}
+		return true
+	})
+	addStrList("c05FrontendMapsGuard", fm, "config.WriteFrontendMaps: first guard (skip when maps exist and hosts are clean)")
 }
